@@ -748,6 +748,8 @@ class C08Executor(readfile.ReadFileExecutor):
                 return [(st, VStr(base.a.name))]
         if isinstance(base, VMod) and attr == "__dict__":
             return [(st, VModDict(base.name))]
+        if isinstance(base, VModDict) and attr == "update":
+            return [(st, VFunc("bound", base, attr))]
         if isinstance(base, VMod) and ("bind", base.name, attr) in st.ghost:
             return [(st, st.ghost[("bind", base.name, attr)])]       # a name this activation has (re)bound in that module
         if attr in self._LIST_GROW and self._grown_list(st, base):
@@ -852,6 +854,8 @@ class C08Executor(readfile.ReadFileExecutor):
                 if tick < idx < after and not x.eq(k):
                     raise Unsupported(f"{self.loc(n)} comprehension condition creates fresh symbols")
             stack.extend(x.children())
+        if not g.ifs:        # nothing filtered: position i of the result is position i of the source
+            return [(st, VSeq(src.length, lambda t: at(t)[1], "?", False))]
         m = z3.Int(fresh_name("m"))
         IDX = z3.Function(fresh_name("kept_pos"), I, I)
         INV = z3.Function(fresh_name("kept_rank"), I, I)
